@@ -121,8 +121,14 @@ def mc_naive(n=5):
                                                    "ASSUME \\E t \\in Layouts : ~RetileKeepingStaleOK(t)"])
 
 
-def mc_tables(crit, maxlen, extra, full2d, sub2d, big):
+def mc_tables(crit, maxlen, extra, full2d, sub2d, big, huge):
     defs = [
+        ("Huge", tla.lit([list(p) for p in huge])),
+        # symbolic geometry for sizes 2^k + d: equal to the concrete operators for every pair that fits into 32 bits
+        "Fam == {<<k, d>> \\in (0..29) \\X {-1, 0, 1} : 2^k + d >= 1}",
+        "ASSUME \\A w \\in Fam, h \\in Fam : SymAgrees(w, h)",
+        # object histories over image modes: the code's rule holds, the sticky-buffer variant is refuted
+        "ASSUME ModeHistoriesOK(BufferModeOf) /\\ ~ModeHistoriesOK(StickyBufferModeOf)",
         ("MCSubLens", "{}"),
         "IdleInit == c = 0",
         "IdleNext == UNCHANGED c",
@@ -151,6 +157,7 @@ def mc_tables(crit, maxlen, extra, full2d, sub2d, big):
         "   sub |-> [i \\in DOMAIN Sub2D |-> LET t == SubOf(Sub2D[i]) IN [row |-> <<t.p2, t.lev, t.x.g0, t.y.g0, Count(t)>>, rects |-> RectsT(t)]],\n"
         "   big |-> [i \\in DOMAIN Big |-> LET t == Tiling(Big[i][1], Big[i][2]) IN [row |-> <<t.p2, t.lev, t.x.g0, t.y.g0, Count(t)>>, "
         "sx |-> SegT(AxisSegs(t.x)), sy |-> SegT(AxisSegs(t.y))]],\n"
+        "   huge |-> [i \\in DOMAIN Huge |-> SymTiling(<<Huge[i][1], Huge[i][2]>>, <<Huge[i][3], Huge[i][4]>>)],\n"
         "   filerow |-> [topdown |-> [r \\in 1..TS |-> FileRow(\"topdown\", r - 1)], bottomup |-> [r \\in 1..TS |-> FileRow(\"bottomup\", r - 1)]]\n"
         "   ])" % (maxlen, maxlen),
     ]
@@ -271,6 +278,69 @@ def compare_geometry(tag, case, st, w, h, row, segsx, segsy, exp_rects=None):
         bad("V", "count", "count_populated_positions of %s = %d but %d rectangles are generated" % (case, cnt, len(rects)))
     elif cnt != count:
         bad("V", "count", "count_populated_positions of %s = %d, closed form %d" % (case, cnt, count))
+    return res
+
+
+def sym(v):
+    """TLC's symbolic number [t |-> <<sign, exponent>>..., b |-> int] as a Python integer."""
+    return sum(int(sg) * (1 << int(x)) for sg, x in v["t"]) + int(v["b"])
+
+
+def compare_huge(case, w, h, exp):
+    """Sizes beyond TLC's integers (2^k + d): the real StudyTiling(w, h) against TLC's symbolic geometry, without
+    instantiating an image and without enumerating the tiles: depth, offsets, slot of the first and the last pixel,
+    the count (closed form) and the first rectangles the generator yields."""
+    import itertools
+    from toasty.study import StudyTiling
+    res = []
+
+    def bad(key, msg):
+        res.append(("V", "study:%s" % key, msg, case))
+    lev = exp["lev"]
+    ax, ay = exp["x"], exp["y"]
+    try:
+        st = StudyTiling(w, h)
+        ndeep = int(st.n_deepest_layer_tiles())
+        cnt = int(st.count_populated_positions())
+        first = [(int(p.n), int(p.x), int(p.y), int(rw), int(rh), int(ix), int(iy), int(tx), int(ty))
+                 for (p, rw, rh, ix, iy, tx, ty) in itertools.islice(st.generate_populated_positions(), 4)]
+        s0 = [int(v) for v in st.image_to_tile(0, 0)]
+        s1 = [int(v) for v in st.image_to_tile(w - 1, h - 1)]
+    except Exception as e:  # noqa
+        bad("raises", "StudyTiling(%d, %d) raised %r" % (w, h, e))
+        return res
+    if ndeep != 4 ** lev or any(r[0] != lev for r in first):
+        bad("padded-size", "tiling of %dx%d (%s) has %d deepest tiles / depth %s; the smallest power-of-two square 2^%d has depth %d"
+            % (w, h, case, ndeep, sorted(set(r[0] for r in first)), exp["e"], lev))
+    gx0, gy0 = sym(ax["g0"]), sym(ay["g0"])
+    og = (s0[0] * TS + s0[2], s0[1] * TS + s0[3])
+    if og != (gx0, gy0):
+        bad("centring", "image pixel (0,0) of %dx%d lands at global %s; centred (rounded down) is (%d,%d)" % (w, h, og, gx0, gy0))
+    e0 = [sym(ax["slot0"][0]), sym(ay["slot0"][0]), int(ax["slot0"][1]), int(ay["slot0"][1])]
+    e1 = [sym(ax["slotN"][0]), sym(ay["slotN"][0]), int(ax["slotN"][1]), int(ay["slotN"][1])]
+    if s0 != e0 or s1 != e1:
+        bad("image_to_tile", "image_to_tile of the first / last pixel of %dx%d = %s / %s, slot table %s / %s" % (w, h, s0, s1, e0, e1))
+    ecount = sym(ax["cnt"]) * sym(ay["cnt"])
+    if cnt != ecount:
+        bad("count", "count_populated_positions of %dx%d = %d, closed form %d" % (w, h, cnt, ecount))
+
+    # the rectangles yielded first, looked up by tile among the segments TLC wrote out (first three and last per axis)
+    def table(a):
+        d = {}
+        for sg in list(a["head"]) + [a["tail"]]:
+            v = tuple(sym(q) for q in sg)
+            d[v[0]] = v
+        return d
+    tx_, ty_ = table(ax), table(ay)
+    for r in first:
+        sx, sy = tx_.get(r[1]), ty_.get(r[2])
+        if not (sym(ax["first"]) <= r[1] <= sym(ax["last"]) and sym(ay["first"]) <= r[2] <= sym(ay["last"])):
+            bad("rects", "rectangle %s of %dx%d names a tile that holds no image data" % (r, w, h))
+        elif sx is not None and sy is not None and r != (lev, sx[0], sy[0], sx[3], sy[3], sx[2], sy[2], sx[1], sy[1]):
+            bad("rects", "rectangle %s of %dx%d; the tile's overlap with the image is %s"
+                % (r, w, h, (lev, sx[0], sy[0], sx[3], sy[3], sx[2], sy[2], sx[1], sy[1])))
+    if not first:
+        bad("rects", "no rectangle generated for %dx%d" % (w, h))
     return res
 
 
@@ -584,6 +654,8 @@ def reassembly_case(args):
         from toasty.builder import Builder
         if kind == "retile":
             return retile_case(case, mode, fmt, dims, seed, flavour, d, sink), case
+        if kind == "modes":
+            return modes_case(case, fmt, dims, seed, d, sink), case
         if kind == "sub":
             W, H, ix, iy, sw, sh = dims
             prow = T.pair[(W, H)]
@@ -679,6 +751,58 @@ def reassembly_case(args):
         return res, case
     finally:
         shutil.rmtree(d, ignore_errors=True)
+
+
+ALL_MODES = ("U8", "I16", "I32", "F32", "F64", "RGB", "RGBA", "F16x3")
+SCALAR_MODES = ("U8", "I16", "I32", "F32", "F64")
+
+
+def modes_case(case, fmt, dims, seed, d, sink):
+    """Object history over image modes (spec: ModeHistoriesOK): ONE StudyTiling object (prepared once through
+    Builder.prepare_study_tiling or constructed directly) tiles same-size images of several modes one after the other,
+    each into its own directory; every result is read back and must equal its image exactly - dtype and values."""
+    import contextlib
+    import random
+    from toasty.pyramid import PyramidIO
+    from toasty.study import StudyTiling
+    from toasty.builder import Builder
+    res = []
+    w, h = dims
+    p2, lev, gx0, gy0, _cnt = T.pair[(w, h)]
+    modes = list(SCALAR_MODES if fmt == "fits" else ALL_MODES)
+    variant = seed % 4
+    if variant == 0:
+        pass                                    # narrow -> wide
+    elif variant == 1:
+        modes.reverse()                         # wide -> narrow
+    else:
+        random.Random(seed).shuffle(modes)
+    tiling = None
+    for step, mode in enumerate(modes):
+        scase = dict(case, step=step, order=modes, mode=mode)
+        img = make_image(mode, w, h, seed + 17 * step)
+        out = os.path.join(d, "out%d" % step)
+        with contextlib.redirect_stdout(sink), contextlib.redirect_stderr(sink):
+            try:
+                source = _mkimage(img.copy(), fmt, d)
+                pio = PyramidIO(out, default_format=fmt)
+                if (seed // 4) % 2:
+                    b = Builder(pio)
+                    t2 = b.prepare_study_tiling(source)
+                    if tiling is None:
+                        tiling = t2                 # the tiling prepared first is reused for every later image
+                    b.execute_study_tiling(source, tiling)
+                else:
+                    if tiling is None:
+                        tiling = StudyTiling(w, h)
+                    tiling.tile_image(source, pio)
+                template = pio.get_path_scheme() + "." + fmt
+            except Exception as e:  # noqa
+                res.append(("V", "reassembly:modes:raises", "tiling step %d of %s raised %r" % (step, scase, e), scase))
+                continue
+        mosaic, undefined, problems = reassemble(out, template, lev, fmt, mode)
+        res.extend(judge_mosaic("reassembly:modes", scase, mosaic, undefined, problems, img, gx0, gy0, mode))
+    return res
 
 
 RETILE_PLANS = (("full", "holes", "full"), ("holes", "full", "holes"), ("full", "holes", "holes"), ("holes", "holes", "full"))
@@ -834,7 +958,16 @@ def run(ctx):
 
     # ---- TLC: the pair rows, full rectangle lists, file-row tables (constant evaluation of the same operators)
     outp = os.path.join(ctx.scratch, "tables.json")
-    ctx.tlc("MCTables", extra={"MCTables.tla": mc_tables(crit, maxlen, extra, full2d, sub2d, big)}, cfg_text=TAB_CFG,
+    # sizes 2^k + d over the whole range the library accepts (TLC: symbolic in k, see SymAgrees): <<kw, dw, kh, dh>>
+    kmax = 44 if quick else 46
+    huge = []
+    for k in range(8, kmax + 1):
+        for dd in (-1, 0, 1):
+            huge += [(k, dd, 0, 0), (0, 0, k, dd), (k, dd, k, -dd), (k, dd, max(k - 3, 0), 1), (max(k - 1, 0), 0, k, dd)]
+            if not quick:
+                huge += [(k, dd, 9, 1), (10, -1, k, dd), (k, dd, k, dd)]
+    huge = sorted(set(huge))
+    ctx.tlc("MCTables", extra={"MCTables.tla": mc_tables(crit, maxlen, extra, full2d, sub2d, big, huge)}, cfg_text=TAB_CFG,
             env={"OUT": outp}, workers=1, timeout=3600, count=False)
     tab = json.load(open(outp))
     for i, cw in enumerate(crit):
@@ -964,6 +1097,11 @@ def run(ctx):
             for rep_ in range(1 if quick else 4):
                 q = bigsubs[rng.randrange(len(bigsubs))]
                 cases.append(("retile", mode, fmt, q, seed + len(cases), ctx.scratch, fmt, True))
+        # object histories over image modes: one StudyTiling object, images of every mode in several orders
+        for fmt in ("npy", "fits"):
+            for k in range(4 if quick else 16):
+                dims = [(300, 513), (257, 255), (513, 2), (256, 256)][k % 4]
+                cases.append(("modes", "*", fmt, dims, (seed // 8) * 8 + 8 * len(cases) + k % 8, ctx.scratch, fmt, False))
         if only is not None:
             cases = [c for c in cases if "path" in only and [c[0], c[1], c[2], list(c[3]), c[4], c[6], c[7]] ==
                      [only["path"], only["mode"], only["format"], list(only["dims"]), only["seed"], only.get("image_format", c[2]),
@@ -988,6 +1126,17 @@ def run(ctx):
         ctx.count()
         ctx.trace_ok()
         ctx.distinct(("full", w, h))
+    # ---- sizes across the whole integer range (2^k + d): TLC's symbolic tables, no image instantiated
+    for q, rec in zip(huge, tab["huge"]):
+        w, h = 2 ** q[0] + q[1], 2 ** q[2] + q[3]
+        if only is not None and not ("path" not in only and only.get("w") == w and only.get("h") == h):
+            continue
+        report(compare_huge({"w": w, "h": h, "as": "2^%d%+d x 2^%d%+d" % q}, w, h, rec), None)
+        ctx.count()
+        ctx.trace_ok()
+        ctx.distinct(("full", w, h))
+    ctx.note("symbolic_sizes", {"form": "2^k + d, d in -1..1", "k_max": kmax, "pairs": len(huge),
+                                "SymAgrees_checked_by_TLC_for": "every pair with k <= 29"})
     # a few written-out cases for the evidence
     for (w, h) in [(257, 255), (513, 2), (1025, 258)]:
         row = T.pair[(w, h)]
